@@ -236,7 +236,7 @@ pub fn gen_instance(t: &mut Tape, cfg: &InstCfg, ctx: &mut Ctx) -> GI {
         ctx.label("irrelevant-variable");
     }
     // objective
-    if t.p(12) {
+    if cfg.allow_absent_function && t.p(12) {
         ctx.label("objective-absent");
         inst.objective = None;
     } else {
@@ -389,6 +389,24 @@ pub fn gen_inst_state(t: &mut Tape, gi: &GI, regime: Regime, include_irrelevant:
         .copied()
         .chain(if include_irrelevant { gi.irrelevant.clone() } else { vec![] })
         .collect();
+    for v in &gi.inst.decision_variables {
+        if want.contains(&v.id) {
+            s.entries.insert(v.id, in_bound_value(t, v, regime));
+        }
+    }
+    s
+}
+
+/// In-bound state over the used pool plus the subset of irrelevant variables selected by `mask`
+/// (bit i = i-th irrelevant variable is assigned).
+pub fn gen_inst_state_partial(t: &mut Tape, gi: &GI, regime: Regime, mask: u16) -> v1::State {
+    let mut s = v1::State::default();
+    let mut want: BTreeSet<u64> = gi.used_pool.iter().copied().collect();
+    for (i, id) in gi.irrelevant.iter().enumerate() {
+        if (mask >> (i % 16)) & 1 == 1 {
+            want.insert(*id);
+        }
+    }
     for v in &gi.inst.decision_variables {
         if want.contains(&v.id) {
             s.entries.insert(v.id, in_bound_value(t, v, regime));
